@@ -55,6 +55,8 @@ pub struct RunStats {
     pub dumps: u64,
     pub placements_checked: u64,
     pub self_lookups: u64,
+    /// cases evaluated inside this run when a run enumerates several (fault scenarios, crash images)
+    pub cases: u64,
     /// probe name -> count (reach)
     pub probes: BTreeMap<String, u64>,
     /// fault kind -> times it actually fired
@@ -135,6 +137,9 @@ pub struct Exec<'p> {
     pub on_commit: Option<Box<dyn FnMut(&Dump, &World, bool) + 'p>>,
     pub deep_queries: bool,
     pub cancel_budget_override: Option<u64>,
+    pub sys: Arc<crate::interpose::SysState>,
+    /// every finding of every property stops the run (used for post-crash continuation runs)
+    pub focus_any: bool,
 }
 
 fn panic_msg(e: Box<dyn std::any::Any + Send>) -> String {
@@ -183,6 +188,10 @@ impl<'p> Exec<'p> {
             observer: Default::default(),
         });
         let n = plan.cfg.indexes.len();
+        let sys = crate::interpose::activate(
+            dir.join("data.mdb").to_str().unwrap(),
+            crate::driver::workdir_base().to_str().unwrap(),
+        );
         let mut ex = Exec {
             plan,
             focus: plan.focus.clone(),
@@ -210,9 +219,62 @@ impl<'p> Exec<'p> {
             on_commit: None,
             deep_queries: false,
             cancel_budget_override: None,
+            sys,
+            focus_any: false,
         };
         ex.open_env();
         ex
+    }
+
+    /// An executor on an already existing environment directory (crash image), with a given model.
+    pub fn on_existing(plan: &'p Plan, dir: &Path, tmpdir: &Path, world: World, dump: Dump, sys: Arc<crate::interpose::SysState>) -> Exec<'p> {
+        let ctx = Arc::new(RunCtx {
+            ts: None,
+            placement: Placement::parse(&plan.cfg.placement),
+            yield_every: plan.cfg.yield_every,
+            ticks: Default::default(),
+            observer: Default::default(),
+        });
+        let n = plan.cfg.indexes.len();
+        let mut ex = Exec {
+            plan,
+            focus: plan.focus.clone(),
+            dir: dir.to_path_buf(),
+            tmpdir: tmpdir.to_path_buf(),
+            wtxn: None,
+            env: None,
+            db: None,
+            committed: world.clone(),
+            world,
+            committed_dump: dump,
+            txn_had_failed_build: false,
+            step_no: 0,
+            trace: Fnv::new(),
+            out: Outcome { seed: plan.seed, ..Default::default() },
+            ctx,
+            metric_changed: vec![false; n],
+            profiles: vec![None; n],
+            from_fixture: false,
+            after_upgrade: false,
+            last_build_polls: 0,
+            last_build: None,
+            last_build_steps: Vec::new(),
+            on_op: None,
+            on_commit: None,
+            deep_queries: false,
+            cancel_budget_override: None,
+            sys,
+            focus_any: true,
+        };
+        ex.open_env();
+        ex
+    }
+
+    /// Finish without touching the process-global interposer / hook state.
+    pub fn finish_nested(&mut self) -> Outcome {
+        self.wtxn = None;
+        self.close_env();
+        std::mem::take(&mut self.out)
     }
 
     pub fn env(&self) -> &Env<WithoutTls> {
@@ -254,7 +316,7 @@ impl<'p> Exec<'p> {
             step: self.step_no,
             detail,
         };
-        if props.contains(&self.focus.as_str()) {
+        if self.focus_any || props.contains(&self.focus.as_str()) {
             if self.out.violation.is_none() {
                 self.out.violation = Some(v);
             }
@@ -365,6 +427,7 @@ impl<'p> Exec<'p> {
             self.trace.write_u64(s.trace);
         }
         self.out.trace_hash = self.trace.finish();
+        crate::interpose::deactivate();
         std::mem::take(&mut self.out)
     }
 
@@ -1297,9 +1360,12 @@ impl<'p> Exec<'p> {
             self.on_commit = Some(f);
         }
         let txn = self.wtxn.take().unwrap();
+        self.ctx.tick("commit:begin");
         if let Err(e) = txn.commit() {
+            self.ctx.tick("commit:failed");
             return Err(Stop::Unevaluable(format!("commit failed: {e}")));
         }
+        self.ctx.tick("committed");
         self.out.stats.commits += 1;
         self.committed = self.world.clone();
         self.committed_dump = d.clone();
